@@ -265,8 +265,11 @@ class SlowStop(edzed.AddonAsync, edzed.SBlock):
         self.life.cleanup_finished = True
 
 
+_ARMED = [True]
+
+
 def _check(value):
-    if value == 'BOOM':
+    if value == 'BOOM' and _ARMED[0]:
         raise RuntimeError('validator exploded')
     return value != 'REJ'
 
@@ -336,7 +339,15 @@ def make_block(spec, life):
         et, ef = ('put' if link['etrue'] else None), ('put' if link['efalse'] else None)
         common['on_output'] = edzed.Event(link['dest_name'], 'put' if et and ef else edzed.EventCond(et, ef))
     if k == 'input':
-        return edzed.Input(name, check=_check, initdef=edzed.UNDEF if spec['initdef'] is None else spec['initdef'][0], **common)
+        # an initdef 'BOOM' passes the constructor's validation and makes the validator raise when the block is
+        # initialised from it: a start-up that fails in the MIDDLE of the second synchronous pass (the blocks
+        # created later are still uninitialised when run_forever saves the states and stops the blocks)
+        _ARMED[0] = False
+        try:
+            return edzed.Input(name, check=_check, initdef=edzed.UNDEF if spec['initdef'] is None else spec['initdef'][0],
+                               **common)
+        finally:
+            _ARMED[0] = True
     if k == 'counter':
         return edzed.Counter(name, modulo=spec['mod'], initdef=spec['initdef'], **common)
     if k == 'timedate':
@@ -1210,9 +1221,16 @@ def _gen_scenario(rng, tier, family):
         else:
             spec = {'kind': 'counter', 'name': f'b{i}', 'mod': None, 'initdef': 0, 'p': True, 's': True, 'exp': None}
         scn['blocks'].append(spec)
+    # a block whose regular initialisation raises (round ten): the start-up fails after start_ok, the blocks created
+    # after it have no state yet when the final save runs
+    if scn['mode'] == 'ok' and scn['slow'] is None and rng.random() < 0.08:
+        j = rng.randrange(nb)
+        scn['blocks'][j] = {'kind': 'input', 'name': f'b{j}', 'initdef': ['BOOM'], 'p': rng.random() < 0.9,
+                            's': rng.random() < 0.75, 'exp': None}
+        scn['init_boom'] = True
     # events between the blocks at start-up: on_output of an Input/Counter -> 'put' to another block, plain or
     # through an EventCond with None on either side; the destination is created before or after the source
-    linked = _gen_links(rng, scn) if family == 'a' and scn['mode'] == 'ok' and nb >= 2 and rng.random() < 0.5 else []
+    linked = _gen_links(rng, scn) if family == 'a' and scn['mode'] == 'ok' and nb >= 2 and not scn.get('init_boom') and rng.random() < 0.5 else []
     ops = []
     aborted = False
     free = [i for i in range(nb) if scn['blocks'][i].get('link') is None]
@@ -1228,7 +1246,7 @@ def _gen_scenario(rng, tier, family):
             r['drop'] = []
     # the storage fails: at the start (reads of entries / of the stop time, keys(), the purge), at run time
     # (writes, and the pop that removes the stale entry), at the stop (saves, stop time)
-    if family == 'a' and scn['mode'] == 'ok' and not linked and rng.random() < 0.3:
+    if family == 'a' and scn['mode'] == 'ok' and not linked and not scn.get('init_boom') and rng.random() < 0.3:
         scn['slow'], scn['stop'] = None, {'kind': 'full'}
         scn['fault_exc'] = rng.choice(['OSError', 'RuntimeError', 'StorageFault'])
 
@@ -1693,6 +1711,18 @@ def oracle(scn, res):
             expect = {k: v for k, v in store0.items() if k.startswith('edzed-') or k in pkeys}
         if not _same(st, expect):
             viol('no_write_on_failed_start', f"mode {scn['mode']}: storage {st!r}, expected {expect!r}")
+    # ---- a start-up that failed during the initialisation: run_forever saves the states before it stops the blocks;
+    # a block that was never initialised has no state - its entry may be gone ("remove stale data") or untouched,
+    # but the storage must not get a state the block never had (a restart would restore it)
+    if first[0]['label'] == 'failed-init':
+        st = first[0]['store']
+        for i, spec in enumerate(specs):
+            if spec['p'] and not first[0]['obs'][i]['inited'] and keys[i] in st \
+                    and not _same(st[keys[i]], store0.get(keys[i], KeyError)):
+                viol('uninitialised_block_not_saved',
+                     f"failed initialisation: {keys[i]} was never initialised (no output, no state), yet the final "
+                     f"save wrote the entry {st[keys[i]]!r} (before the run: {store0.get(keys[i], 'no entry')!r}); a "
+                     f"restart restores it instead of initialising the block from its arguments", kind=spec['kind'])
     # ---- reserved kept / unused removed, in every snapshot of a circuit that got as far as the check
     if scn['mode'] != 'aborted' and not first[0].get('start_error'):      # (`_check_persistent_data` completed)
         for i, s in enumerate(first):
